@@ -1,5 +1,7 @@
 import Rangers.Proofs.TrieIterBytes
 import Rangers.Proofs.TrieCompact
+import Rangers.Proofs.TrieYPRoot
+import Rangers.Basic.Keccak
 /-!
 # C02 — the state trie root is the canonical Merkle-Patricia commitment of its content
 
@@ -94,6 +96,38 @@ example : finalMap [.upd [1] [7], .commit, .upd [2] [8], .upd [3] [9], .del [3],
   by_cases h1 : k = [1] <;> by_cases h2 : k = [2] <;> by_cases h3 : k = [3] <;> simp_all
 
 theorem rootHash_empty (H : Bytes → Bytes) : rootHash H .nil = emptyRoot := rfl
+
+/-! ## the root is the Ethereum Merkle-Patricia root of the content -/
+
+/-- the node encoding the hasher produces for a minimal-form subtree below the nibble path `P` is
+    the Yellow Paper's `c(J, |P|)` of the pairs stored below it (`absK` = absolute keys, no terminator) -/
+theorem node_encoding_eq_yellow_paper (H : Bytes → Bytes) (t : Node) (ht : WF t) (P : Key) (f : Nat)
+    (hf : height t ≤ f) : enc H t = ypC H f (absK P (iter t)) P.length :=
+  (ypC_enc H t ht P f hf).symm
+
+/-- **canonical commitment**: after any history the root equals `TRIE(J)` of Yellow Paper
+    appendix D (`ypRoot`, a transcription that never looks at a trie), where `J` is *any*
+    enumeration of the map the history defines, listed in path order.
+    Hypothesis on `H`: the hard-coded `emptyRoot` constant is `H` of the empty string's RLP
+    (true for Keccak-256, checked below). -/
+theorem root_eq_yellow_paper (H : Bytes → Bytes) (hH : H [0x80] = emptyRoot) (ops : List Op)
+    (J : List (Bytes × Bytes))
+    (hsorted : J.Pairwise (fun a b => keybytesToHex a.1 < keybytesToHex b.1))
+    (hJ : ∀ k v, (k, v) ∈ J ↔ finalMap ops k = some v) :
+    rootHash H (run ops) = ypRoot H (J.map (fun e => (hexOfBytes e.1, e.2))) := by
+  rw [rootHash_eq_ypRoot H hH _ (run_wf ops), ← enumeration_eq_iter (represents_run ops) J hsorted hJ]
+  congr 1
+  simp [absK, keybytesToHex, List.map_map, Function.comp_def]
+
+/-- such an enumeration always exists: what full iteration returns -/
+theorem enumeration_exists (ops : List Op) :
+    (iterFrom (run ops) []).Pairwise (fun a b => keybytesToHex a.1 < keybytesToHex b.1) ∧
+    ∀ k v, (k, v) ∈ iterFrom (run ops) [] ↔ finalMap ops k = some v :=
+  ⟨iterFrom_sorted_hex (represents_run ops), mem_iterFrom_nil (represents_run ops)⟩
+
+-- non-vacuity of the hypothesis on `H`: the executable Keccak-256 satisfies it
+set_option maxRecDepth 100000 in
+example : Keccak.keccak256 [0x80] = emptyRoot := by decide +kernel
 
 /-! ## hex-prefix (compact) key encoding -/
 
